@@ -7,7 +7,11 @@ observable behaviour with models.timers.TimerModel.  Subclasses supply the
 real object and the "pass" operation (reactor iteration / Clock.advance).
 
 All times are multiples of 1/8 (dyadic), so float arithmetic is exact and the
-model's scheduled times can be compared with ``==``.
+model's scheduled times can be compared with ``==``.  A scenario may switch on a
+finer time grid for a run (attribute ``fine_unit``, a power of two below 1/8,
+default None = off): every drawn delay is then a multiple of either 1/8 or of
+that unit (one extra draw per delay, made only when the knob is on), so clock
+positions and remaining times are no longer whole milliseconds but still exact.
 
 Scripted call behaviour "fails": with a per-run probability (knob ``raise_p``,
 0 in a third of the runs) a timed call ends by raising ScriptedFailure after it
@@ -46,6 +50,7 @@ class TimerScenario:
     mode = None          # "reactor" | "clock"
     STEP_CAP = 4000
     RAISE_CHOICES = (0.0, 0.1, 0.3)   # per-run probability that a timed call ends by raising
+    fine_unit = None     # optional finer time grid of the run (a power of two < 1/8); None = every time is a multiple of 1/8
 
     def __init__(self, sim):
         self.sim = sim
@@ -92,8 +97,16 @@ class TimerScenario:
         if kind == "zero":
             return 0.0
         if kind == "small":
-            return sim.draw_int(1, 8, label) * EIGHTH
-        return sim.draw_int(1, hi, label) * EIGHTH
+            return sim.draw_int(1, 8, label) * self.draw_unit()
+        return sim.draw_int(1, hi, label) * self.draw_unit()
+
+    def draw_unit(self):
+        """The unit a drawn number of time steps is counted in: 1/8 s, or - only in runs with the fine grid switched on -
+        by tape the run's finer unit (the mixture leaves the clock and the scheduled times at positions like k/8 + j/1024)."""
+        if self.fine_unit is None or not self.sim.draw_bool(0.6, "fine-unit"):
+            return EIGHTH
+        self.sim.probe("fine_grained_time_step")
+        return self.fine_unit
 
     def pick(self, label):
         """A call id: usually a pending one, sometimes any (dead ones included)."""
